@@ -28,7 +28,7 @@ fn main() {
     let t0 = std::time::Instant::now();
     let dt = t0.elapsed().as_nanos();
     println!(
-        "{} heap={:p} stack={:p} wall={} dt={} pid={} tid={} {} urandom={} cpus={} maxrss={}",
+        "{} heap={:p} stack={:p} wall={} dt={} pid={} tid={} {} urandom={} cpus={} maxrss={} slept_ms={} waited_ms={}",
         out,
         &*boxed,
         &local,
@@ -49,6 +49,19 @@ fn main() {
         {
             let mut ru = [0i64; 18];
             if unsafe { getrusage(0, &mut ru) } == 0 { ru[4] } else { -1 }
+        },
+        {
+            // a sleep must move the simulated clock by the time asked for
+            let t = std::time::Instant::now();
+            std::thread::sleep(std::time::Duration::from_millis(50));
+            t.elapsed().as_millis()
+        },
+        {
+            // and so must a timed wait that runs out (futex with a time-out)
+            let (_tx, rx) = std::sync::mpsc::channel::<u8>();
+            let t = std::time::Instant::now();
+            let _ = rx.recv_timeout(std::time::Duration::from_millis(30));
+            t.elapsed().as_millis()
         }
     );
 }
